@@ -6,8 +6,15 @@
    language (no polymorphism, no record width subtyping, no tuple broadcasting, no parameter packs):
 
      numbers      literals, now, samplerate, self; operands of arithmetic / comparison / logic, of mem and delay
-     self         the function's return value of the previous call: only in a function / lambda that returns a number
-                  (mir.rs StateType: the model's feedback cell holds one number; tuple-valued self is outside Lmmx)
+     self         the function's return value of the previous call: XSelf where the function / lambda returns a number,
+                  XSelfS sh where it returns first-order data of shape sh (numbers, tuples, records, declared sum types);
+                  every `self` of a body has the body's type
+     C, C(e)      constructor number `tag` of a declared sum type: the payload has the declared type; the result is the sum type
+     match        the scrutinee has any type; literal patterns need a number, constructor patterns a sum type (payload
+                  patterns bind at the payload type), tuple patterns a tuple componentwise, `_` anything; all arms have the
+                  same type; the match is EXHAUSTIVE: an irrefutable arm (`_`, or a tuple pattern of `_`s), or the scrutinee
+                  is a sum value and every constructor has an arm (typing.rs check_match_exhaustiveness on sum types; on
+                  numbers and tuples the real checker asks for nothing: lenient configuration)
      if           the condition is a number, both arms have the same type
      let          the pattern is matched against the type of the bound expression (a record pattern may name a subset of the
                   fields); the binders are variables of the parts' types
@@ -40,23 +47,26 @@ Definition ofields {A B} (f : A -> option B) : list (ident * A) -> option (list 
     | (k, a) :: l' => match f a, go l' with Some b, Some bs => Some ((k, b) :: bs) | _, _ => None end
     end.
 
-(* `self` of this body (not of a nested lambda) *)
-Fixpoint xuses_self (e : xexpr) : bool :=
+(* the types at which this body (not a nested lambda) reads `self` *)
+Fixpoint self_tys (e : xexpr) : list ty :=
   match e with
-  | XSelf => true
-  | XLit _ | XVar _ | XNow | XSr | XLam _ _ => false
-  | XBin _ a b | XLet _ a b | XDelay _ a b | XPipe a b | XSeq a b => xuses_self a || xuses_self b
-  | XNeg a | XMem a | XProj a _ | XField a _ | XAssign _ a => xuses_self a
-  | XIf c t e' => xuses_self c || xuses_self t || xuses_self e'
-  | XTuple es => existsb (fun x => xuses_self x) es
-  | XRecord fs | XCallNamed _ fs => existsb (fun fe => xuses_self (snd fe)) fs
-  | XApp f args => xuses_self f || existsb (fun x => xuses_self x) args
-  | XSelfS _ => true
-  | XCon _ _ arg => match arg with Some a => xuses_self a | None => false end
-  | XMatch sc arms => xuses_self sc || existsb (fun a => xuses_self (snd a)) arms
+  | XSelf => [TNum]
+  | XSelfS sh => [ty_of_shape sh]
+  | XLit _ | XVar _ | XNow | XSr | XLam _ _ => []
+  | XBin _ a b | XLet _ a b | XDelay _ a b | XPipe a b | XSeq a b => self_tys a ++ self_tys b
+  | XNeg a | XMem a | XProj a _ | XField a _ | XAssign _ a => self_tys a
+  | XIf c t e' => self_tys c ++ self_tys t ++ self_tys e'
+  | XTuple es => flat_map (fun x => self_tys x) es
+  | XRecord fs | XCallNamed _ fs => flat_map (fun fe => self_tys (snd fe)) fs
+  | XApp f args => self_tys f ++ flat_map (fun x => self_tys x) args
+  | XCon _ _ arg => match arg with Some a => self_tys a | None => [] end
+  | XMatch sc arms => self_tys sc ++ flat_map (fun a => self_tys (snd a)) arms
   end.
 
-Definition self_ok (body : xexpr) (rt : ty) : bool := negb (xuses_self body) || ty_eqb rt TNum.
+Definition xuses_self (e : xexpr) : bool := match self_tys e with [] => false | _ => true end.
+
+(* every `self` of the body is read at the body's type *)
+Definition self_ok (body : xexpr) (rt : ty) : bool := forallb (ty_eqb rt) (self_tys body).
 (* lenient configuration: self may have any type that holds no closure ('Function that uses self cannot return function type') *)
 Definition self_ok_in (lenient : bool) (body : xexpr) (rt : ty) : bool :=
   if lenient then negb (xuses_self body) || negb (ty_has_fn rt) else self_ok body rt.
@@ -117,6 +127,90 @@ Definition spread (pts : list ty) (rt : ty) (ats : list ty) : option ty :=
   match pts, rt, ats with
   | [TNum], TNum, [TTup ts] => Some (TTup ts)
   | _, _, _ => None
+  end.
+
+(* ---- match ---- *)
+(* a pattern that binds no variable *)
+Fixpoint mpat_nobind (m : mpat) : bool :=
+  match m with
+  | MLit _ | MWild => true
+  | MCon _ p => match p with None => true | Some _ => false end
+  | MTup ms => forallb (fun x => mpat_nobind x) ms
+  end.
+
+(* the binders of a match pattern against a scrutinee of type t, in front of G (mirrors Lmmx.mbind).  `len`: the lenient
+   configuration (typing.rs drops the unification error of a literal pattern, zips a tuple pattern with the component types
+   whatever their number, and never compares a constructor / tuple pattern with the type it meets) lets a literal pattern meet
+   any scrutinee, a tuple pattern a tuple of another width, and a pattern without binders anything *)
+Fixpoint tc_mpat (len : bool) (m : mpat) (t : ty) (G : tenv) {struct m} : option tenv :=
+  match m with
+  | MLit _ => match t with TNum => Some G | _ => if len then Some G else None end
+  | MWild => Some G
+  | MCon tag p =>
+      match t with
+      | TSum _ cs =>
+          match nth_error cs tag, p with
+          | Some None, None => Some G
+          | Some (Some _), None => Some G
+          | Some (Some t'), Some q => tc_pat q t' G
+          | _, _ => if len && mpat_nobind m then Some G else None
+          end
+      | _ => if len && mpat_nobind m then Some G else None
+      end
+  | MTup ms =>
+      match t with
+      | TTup ts =>
+          (fix go (ms : list mpat) (ts : list ty) (G : tenv) : option tenv :=
+             match ms, ts with
+             | [], [] => Some G
+             | m :: ms', t :: ts' => match tc_mpat len m t G with Some G' => go ms' ts' G' | None => None end
+             | _, _ => if len then Some G else None
+             end) ms ts G
+      | _ => if len && mpat_nobind m then Some G else None
+      end
+  end.
+
+(* a pattern every value matches *)
+Fixpoint irrefutable (m : mpat) : bool :=
+  match m with
+  | MWild => true
+  | MTup ms => forallb (fun x => irrefutable x) ms
+  | _ => false
+  end.
+
+Definition is_con_of (tag : nat) (m : mpat) : bool := match m with MCon t _ => Nat.eqb t tag | _ => false end.
+
+(* strict: an irrefutable arm, or a sum-typed scrutinee with an arm for every constructor *)
+Definition exhaustive (t : ty) (ms : list mpat) : bool :=
+  existsb irrefutable ms ||
+  match t with
+  | TSum _ cs => forallb (fun tag => existsb (is_con_of tag) ms) (seq 0 (length cs))
+  | _ => false
+  end.
+
+(* lenient (typing.rs check_match_exhaustiveness): only a sum-typed scrutinee is checked; `_` and ANY tuple pattern count as
+   covering everything *)
+Definition exhaustive_len (t : ty) (ms : list mpat) : bool :=
+  match t with
+  | TSum _ cs =>
+      existsb (fun m => match m with MWild | MTup _ => true | _ => false end) ms ||
+      forallb (fun tag => existsb (is_con_of tag) ms) (seq 0 (length cs))
+  | _ => true
+  end.
+
+(* shapes whose sum types are declared (with these constructors) and have at least one constructor *)
+Fixpoint shape_ok (sums : list (ident * list (option ty))) (sh : shape) : bool :=
+  match sh with
+  | SNum => true
+  | STup shs => forallb (fun x => shape_ok sums x) shs
+  | SRec fs => keys_increasing fs && forallb (fun fx => shape_ok sums (snd fx)) fs
+  | SSum nm cs =>
+      match cs with [] => false | _ => true end &&
+      forallb (fun o => match o with Some x => shape_ok sums x | None => true end) cs &&
+      match rlookup nm sums with
+      | Some cs' => ty_eqb (TSum nm cs') (ty_of_shape (SSum nm cs))
+      | None => false
+      end
   end.
 
 Section Tc.
@@ -207,8 +301,54 @@ Section Tc.
         | _, _ => None
         end
     | XSeq a b => match tc G a with Some _ => tc G b | None => None end
-    | XSelfS _ | XCon _ _ _ | XMatch _ _ => None
+    | XSelfS sh => if shape_ok (an_sums an) sh then Some (ty_of_shape sh) else None
+    | XCon tn tag arg =>
+        match rlookup tn (an_sums an) with
+        | Some cs =>
+            match nth_error cs tag, arg with
+            | Some None, None => Some (TSum tn cs)
+            | Some (Some t), Some a =>
+                match tc G a with
+                | Some ta => if an_teq an t ta then Some (TSum tn cs) else None
+                | None => None
+                end
+            | _, _ => None
+            end
+        | None => None
+        end
+    | XMatch sc arms =>
+        match tc G sc with
+        | Some ts =>
+            match (fix go (l : list (mpat * xexpr)) : option (list ty) :=
+                     match l with
+                     | [] => Some []
+                     | a :: l' =>
+                         match tc_mpat (an_len an) (fst a) ts G with
+                         | Some G' => match tc G' (snd a), go l' with Some t, Some tl => Some (t :: tl) | _, _ => None end
+                         | None => None
+                         end
+                     end) arms with
+            | Some (t :: tl) =>
+                if an_len an
+                then (if exhaustive_len ts (map fst arms) then Some t else None)
+                else (if forallb (an_teq an t) tl && exhaustive ts (map fst arms) then Some t else None)
+            | _ => None
+            end
+        | None => None
+        end
     end.
+
+  (* the types of the arms of a match on a scrutinee of type ts (the inner loop of tc on XMatch) *)
+  Definition tc_arms (len : bool) (G : tenv) (ts : ty) : list (mpat * xexpr) -> option (list ty) :=
+    fix go (l : list (mpat * xexpr)) : option (list ty) :=
+      match l with
+      | [] => Some []
+      | a :: l' =>
+          match tc_mpat len (fst a) ts G with
+          | Some G' => match tc G' (snd a), go l' with Some t, Some tl => Some (t :: tl) | _, _ => None end
+          | None => None
+          end
+      end.
 
   Definition tc_list (G : tenv) (es : list xexpr) : option (list ty) := omap (fun x => tc G x) es.
   Definition tc_fields (G : tenv) (fs : list (ident * xexpr)) : option (list (ident * ty)) := ofields (fun x => tc G x) fs.
@@ -302,6 +442,7 @@ Definition ty_sim (a b : ty) : bool :=
   | TTup xs, TTup ys => Nat.eqb (length xs) (length ys)
   | TRec _, TRec _ => true
   | TFn _ _, TFn _ _ => true
+  | TSum n _, TSum m _ => N.eqb n m
   | _, _ => false
   end.
 
@@ -320,4 +461,5 @@ Definition tys_sim (xs ys : list ty) : bool :=
   | _, _ => Nat.eqb (pack_width xs) (pack_width ys)
   end.
 
-Definition mkLenient (par ret : list (ident * ty)) : config := mkCfg par ret ty_sim tys_sim true.
+Definition mkLenient (par ret : list (ident * ty)) (sums : list (ident * list (option ty))) : config :=
+  mkCfg par ret sums ty_sim tys_sim true.
